@@ -7,7 +7,7 @@
     is outside the model (the property says "up to rounding"). *)
 From Coq Require Import Reals List QArith Qreals.
 From SV Require Import Rot.RotBase Gen.RotFormulas_gen Rot.RotAlgebra Rot.RotAliasProofs Rot.RotEuler Rot.RotEulerProofs
-  Rot.RotDispatch Rot.RotDispatchProofs Rot.RotMixedProofs Rot.RotInplace Gen.RotDispatch_gen Rot.RotGJ Rot.RotGJProofs Rot.RotGJTotal Rot.RotGJTotalProofs Rot.RotGJExample
+  Rot.RotDispatch Rot.RotDispatchProofs Rot.RotMixedProofs Rot.RotInplace Gen.RotDispatch_gen Rot.RotGJ Rot.RotGJProofs Rot.RotGJTotal Rot.RotGJTotalProofs Rot.RotGJExample Rot.RotRoundEuler
   Rot.RotReify Gen.RotReified_gen Rot.RotReifyProofs
   Rot.RotRound Rot.RotRoundProofs Rot.RotRoundFlocq Gen.RotRounded_gen Rot.RotRoundTied.
 Import ListNotations.
@@ -251,6 +251,22 @@ Theorem c04_from_angle_binary64_error : forall d tol, errs_within_in 1 d tol fro
   let ex := nth i (let m := from_angle p y r in [aa m; ab m; ac m; ba m; bb m; bc m; ca m; cb m; cc m]) 0 in
   Rabs (fl - ex) <= Q2R tol /\ Rabs fl <= 1 + Q2R tol.
 Proof. exact from_angle_binary64_error. Qed.
+(** Matrix -> Angle -> Matrix in binary64, outside the gimbal band (round 4): the exact Euler round trip composed with the
+    bound above.  For an exact rotation [m] with horizontal length > 0.001: if the six sin / cos values the float from_angle
+    runs on are within [d] of the real sin / cos of the exact Euler angles of [m] (this hypothesis contains the float error of
+    _to_angle's atan2 / degrees / % 360 and of radians / sin / cos; the check measures it against 60-digit arithmetic on every
+    run: about 1.5e-15, also for horizontal lengths down to 0.0011), every entry of the float matrix is within [tol] of [m]
+    (obligation: 2e-13 for d = 2e-14). *)
+Theorem c04_euler_roundtrip_binary64 : forall atan2, atan2_spec atan2 ->
+  forall d tol, errs_within_in 1 d tol from_angle_fe = true ->
+  forall m, rotation m -> horiz m > 1 / 1000 ->
+  forall inp,
+    (forall n, Rabs (inp n - from_angle_inputs (a_pitch (to_angle atan2 m)) (a_yaw (to_angle atan2 m))
+                                               (a_roll (to_angle atan2 m)) n) <= Q2R d) ->
+  forall i, (i < 9)%nat ->
+    Rabs (nth i (map (fe_fl rnd64 inp) from_angle_fe) 0
+          - nth i [aa m; ab m; ac m; ba m; bb m; bc m; ca m; cb m; cc m] 0) <= Q2R tol.
+Proof. exact euler_roundtrip_binary64. Qed.
 Theorem c04_from_angle_trees_tied : forall p y r,
   map (fe_exact (from_angle_inputs p y r)) from_angle_fe =
   (let m := from_angle p y r in [aa m; ab m; ac m; ba m; bb m; bc m; ca m; cb m; cc m]).
